@@ -152,16 +152,6 @@ Definition C10_statement (ops : list op) (b : built) : Prop :=
    indexed in the collateral set *)
 Definition known_collateral_plutus (ops : list op) : bool :=
   match ib_plutus (t_collateral (fst (run ops))) with [] => false | _ => true end.
-(* C10-stale-spend-witness: an input re-added under another script hash keeps the Plutus witness (and
-   redeemer) registered under the first hash *)
-Definition ib_stale (st : ibuilder) : bool :=
-  existsb (fun hm =>
-    existsb (fun ow =>
-      match snd ow, al_get outpoint_ltb (fst ow) (ib_inputs st) with
-      | Some (WPlutus _), Some (Some h') => negb (eqb_of bytes_ltb h' (fst hm))
-      | _, _ => false
-      end) (snd hm)) (ib_scripts st).
-Definition known_stale_spend (ops : list op) : bool := ib_stale (t_inputs (fst (run ops))).
 (* C10-proposal-redeemer-without-script: add_with_plutus_witness accepts a proposal without policy hash *)
 Definition known_prop_nonscript (ops : list op) : bool :=
   existsb (fun e => match plutus_rid (snd e) with Some _ => negb (prop_has_script_hash (fst e)) | None => false end)
@@ -200,10 +190,10 @@ Fixpoint j_unique (R : list redeemer) : bool :=
 Inductive verdict := Holds | FailsKnown (class : N) | FailsUnknown.
 
 (* how the parts combine: a failing part that no known class explains is an unknown failure *)
-Definition verdict_of (core spend_ok prop_ok k1 k3 k2 : bool) : verdict :=
+Definition verdict_of (core spend_ok prop_ok k1 k2 : bool) : verdict :=
   if core && spend_ok && prop_ok then Holds
-  else if negb core || (negb spend_ok && negb (k1 || k3)) || (negb prop_ok && negb k2) then FailsUnknown
-  else if negb spend_ok then FailsKnown (if k1 then 1 else 3)
+  else if negb core || (negb spend_ok && negb k1) || (negb prop_ok && negb k2) then FailsUnknown
+  else if negb spend_ok then FailsKnown 1
   else FailsKnown 2.
 
 Definition judge (ops : list op) (b : built) : verdict :=
@@ -232,8 +222,8 @@ Definition judge (ops : list op) (b : built) : verdict :=
     && j_locked vk vf voter_has_script
     && j_field (eqb_of prop_rust_ltb) pk pf (b_proposals b) && j_present TPropose pk pf pix R && j_expected TPropose pk pf pix R
     && j_unique (filter (fun r => negb (tag_code (r_tag r) =? 0)) R) in
-  (* spend redeemers: none unexpected, none sharing a pointer (collateral and stale witnesses break this) *)
+  (* spend redeemers: none unexpected, none sharing a pointer (Plutus-witnessed collateral breaks this) *)
   let spend_ok := j_expected TSpend ik sf six R && j_unique (filter (fun r => tag_code (r_tag r) =? 0) R) in
   (* proposals: redeemers only on proposals with a policy hash *)
   let prop_ok := j_locked pk pf prop_has_script_hash in
-  verdict_of core spend_ok prop_ok (known_collateral_plutus ops) (known_stale_spend ops) (known_prop_nonscript ops).
+  verdict_of core spend_ok prop_ok (known_collateral_plutus ops) (known_prop_nonscript ops).
